@@ -1,4 +1,5 @@
 """C01 - Mode S decoding is total: any bytes give a message or an error, never a crash."""
+import json
 from collections import Counter
 
 from .. import core
@@ -7,23 +8,33 @@ from . import _decode_pass as dp
 LEVEL = "exploration"
 
 
+def _report(run, rejected, res):
+    per_clause = Counter()
+    n_sig = Counter()
+    for ev, extra in rejected:
+        clause = extra[0] if extra else "?"
+        per_clause[clause] += 1
+        hb = dp.header_bits(ev["hex"])
+        sig = {"clause": clause, "df": hb["df"], "out": ev["out"], "fb_out": ev["fb_out"], "at": ev.get("at", "")}
+        n_sig[json.dumps(sig, sort_keys=True)] += 1
+        if n_sig[json.dumps(sig, sort_keys=True)] > 5:
+            run.report(sig, {"frame_hex": ev["hex"]})
+            continue
+        run.report(sig, {"frame_hex": ev["hex"], "shape": ev["cls"], "index": ev["i"], "recorded": ev,
+                         "tc": hb["tc"], "subtype": hb["subtype"], "panic": ev.get("ptxt", ""),
+                         "spec": "Trace_Decode.tla: outcome in {ok, err}; ok => length = LenFor(DF); "
+                                 "both calls equal; Display/Debug return",
+                         "reproduce": f"{res['exe']} probe {ev['hex']}"})
+    return per_clause
+
+
 def check(run):
     res = dp.decode_pass(run, want={"c01"})
     samples = dp.first_events(res, "c01.ndjson", n=2, pred=lambda e: e["out"] == "ok")
     samples += dp.first_events(res, "c01.ndjson", n=1, pred=lambda e: e["out"] == "err" and e["len"] == 14)
     rejected, n_events, results = dp.validate_parts(run, res, "trace/Trace_Decode", "c01.ndjson")
     st = res["stats"]
-    per_clause = Counter()
-    for ev, extra in rejected:
-        clause = extra[0] if extra else "?"
-        per_clause[clause] += 1
-        hb = dp.header_bits(ev["hex"])
-        sig = {"clause": clause, "df": hb["df"], "out": ev["out"], "fb_out": ev["fb_out"], "at": ev.get("at", "")}
-        run.report(sig, {"frame_hex": ev["hex"], "shape": ev["cls"], "index": ev["i"], "recorded": ev,
-                         "tc": hb["tc"], "subtype": hb["subtype"], "panic": ev.get("ptxt", ""),
-                         "spec": "Trace_Decode.tla: outcome in {ok, err}; ok => length = LenFor(DF); "
-                                 "both calls equal; Display/Debug return",
-                         "reproduce": f"{res['exe']} probe {ev['hex']}"})
+    per_clause = _report(run, rejected, res)
     run.cov.update({
         "evaluations": n_events,
         "distinct_nontrivial": st["distinct_accepted"],
@@ -63,5 +74,8 @@ def check(run):
 
 
 def replay(run, path):
-    check(run)
+    rejected, n = dp.replay_cases(run, path, "c01", "trace/Trace_Decode")
+    _report(run, rejected, {"exe": core.build_rs("c01")})
+    run.cov.update({"evaluations": max(n, 1), "distinct_nontrivial": max(n, 2), "rule": "replay of the cases of " + path,
+                    "samples": [ev.get("hex", "") for ev, _ in rejected][:5] or ["none rejected"]})
     return run.finish()
